@@ -16,6 +16,7 @@ import ast
 from typing import Any, Callable, Dict, List, Optional
 
 from .model import AnalysisError, ClassInfo, FuncInfo, ModuleInfo, Program
+from .model import PKG as PKG_NAME
 
 
 _SRC_CACHE: Dict[int, str] = {}
@@ -214,6 +215,13 @@ class EnumMember(AbsVal):
         if name == "__isinstance__":
             t = args[0]
             return isinstance(t, AClass) and t.cls in self.cls.mro
+        if name == "__contains__" and enum_is_flag(self.cls) and isinstance(args[0], EnumMember) and args[0].cls is self.cls:
+            return args[0].value & self.value == args[0].value
+        if name == "__invert__" and enum_is_flag(self.cls):
+            allbits = 0
+            for mem in enum_members(it, self.cls):
+                allbits |= mem.value
+            return flag_member(it, self.cls, allbits & ~self.value)
         if self.mixin == "str" and name in STR_METHODS:
             return call_builtin_method(it, self.value, name, args, kwargs)
         return NotImplemented
@@ -231,12 +239,19 @@ class EnumMember(AbsVal):
         return NotImplemented
 
     def binop(self, it, op, other, reflected):
+        if enum_is_flag(self.cls) and isinstance(op, (ast.BitOr, ast.BitAnd, ast.BitXor)) and isinstance(self.value, int):
+            o = other.value if isinstance(other, EnumMember) and other.cls is self.cls else other if (self.mixin and isinstance(other, int)) else None
+            if isinstance(o, int) and not isinstance(o, bool):
+                v = self.value | o if isinstance(op, ast.BitOr) else self.value & o if isinstance(op, ast.BitAnd) else self.value ^ o
+                return flag_member(it, self.cls, v)
         if self.mixin:
             o = other.value if isinstance(other, EnumMember) else other
             return it.binop(op, o, self.value) if reflected else it.binop(op, self.value, o)
         return NotImplemented
 
     def truth(self, it):
+        if enum_is_flag(self.cls):
+            return bool(self.value)
         return bool(self.value) if self.mixin else True
 
     def subscript(self, it, idx):
@@ -260,6 +275,25 @@ def enum_mixin(cls: ClassInfo):
     return ""
 
 
+def enum_is_flag(cls: ClassInfo) -> bool:
+    return any(x.split(".")[-1] in ("Flag", "IntFlag") for x in cls.all_ext_bases())
+
+
+_FLAG_COMPOSITES: Dict[tuple, "EnumMember"] = {}
+
+
+def flag_member(it, cls: ClassInfo, value: int):
+    """The member of a Flag class with this value: a declared one, or the (cached, hence identical) combination."""
+    for mem in enum_members(it, cls):
+        if mem.value == value:
+            return mem
+    k = (cls.qualname, value)
+    if k not in _FLAG_COMPOSITES:
+        names = "|".join(m.name for m in enum_members(it, cls) if isinstance(m.value, int) and m.value and m.value & value == m.value)
+        _FLAG_COMPOSITES[k] = EnumMember(cls, names or str(value), value, enum_mixin(cls))
+    return _FLAG_COMPOSITES[k]
+
+
 def enum_members(it, cls: ClassInfo) -> list:
     if cls.qualname not in _ENUM_MEMBERS:
         mixin = enum_mixin(cls)
@@ -267,6 +301,19 @@ def enum_members(it, cls: ClassInfo) -> list:
         for st in cls.node.body:
             tgt = st.targets[0] if isinstance(st, ast.Assign) and len(st.targets) == 1 else st.target if isinstance(st, ast.AnnAssign) and st.value is not None else None
             if isinstance(tgt, ast.Name) and not tgt.id.startswith("_"):
+                if isinstance(st.value, ast.Call) and not st.value.args and (ast.unparse(st.value.func) == "auto" or (isinstance(st.value.func, ast.Attribute) and st.value.func.attr == "auto")):
+                    # enum.auto(): the next integer (the next power of two in a Flag; the lower-cased name in a StrEnum)
+                    ints = [m.value for m in out if isinstance(m.value, int) and not isinstance(m.value, bool)]
+                    if mixin == "str":
+                        val = tgt.id.lower()
+                    elif enum_is_flag(cls):
+                        val = 1
+                        while ints and val <= max(ints):
+                            val *= 2
+                    else:
+                        val = (ints[-1] + 1) if ints else 1
+                    out.append(EnumMember(cls, tgt.id, val, mixin))
+                    continue
                 val = it.ev_in_module(cls.module, st.value)
                 if isinstance(val, Unknown):
                     raise Unsupported(f"enum member {cls.name}.{tgt.id} has a value the model cannot compute (auto() ...)")
@@ -334,6 +381,10 @@ class ExtModule(AbsVal):
         full = f"{self.name}.{name}"
         if full in STDLIB_FUNCS or full in _stdlib().FUNCS:
             return BuiltinFn(full)
+        if self.name == "re" and name.isupper():
+            import re as _re
+            if isinstance(getattr(_re, name, None), int):
+                return int(getattr(_re, name))
         return Unknown(f"{self.name}.{name}")
 
 
@@ -403,6 +454,70 @@ class AIter(AbsVal):
 
     def __repr__(self):
         return f"<iter {self.pos}/{len(self.seq)}>"
+
+
+class ADictView(AbsVal):
+    """dict.keys() / .values() / .items(): a live view - iterable, sized, testable for membership, set-like for keys and
+    items; not subscriptable, not a list, and (like CPython's views) it can be neither copied nor pickled."""
+
+    def __init__(self, d, kind: str):
+        self.d = d
+        self.kind = kind
+
+    def __repr__(self):
+        return f"dict_{self.kind}({self.current()!r})"
+
+    def current(self) -> list:
+        D = self.d.items
+        if self.kind == "keys":
+            return list(D.keys())
+        if self.kind == "values":
+            return list(D.values())
+        return [(k, v) for k, v in D.items()]
+
+    def truth(self, it):
+        return bool(self.d.items)
+
+    def subscript(self, it, idx):
+        it.raise_builtin("TypeError", f"'dict_{self.kind}' object is not subscriptable")
+
+    def call_method(self, it, name, args, kwargs):
+        if name == "__iter__":
+            return AIter(self.current())
+        if name == "__len__":
+            return len(self.d.items)
+        if name == "__contains__":
+            if self.kind == "keys":
+                return it.hashable(args[0]) in self.d.items
+            return any(it.equal(x, args[0]) for x in self.current())
+        if name in ("__deepcopy__", "__copy__", "__reduce_ex__", "__reduce__"):
+            it.raise_builtin("TypeError", f"cannot pickle 'dict_{self.kind}' object")
+        if name == "__type__":
+            return BuiltinType(f"dict_{self.kind}")
+        if name == "isdisjoint" and self.kind != "values":
+            other = [it.hashable(x) for x in it.iterate(args[0])]
+            return not any(it.hashable(x) in other for x in self.current())
+        if name == "mapping":
+            return self.d
+        it.raise_builtin("AttributeError", f"'dict_{self.kind}' object has no attribute '{name}'")
+
+    def binop(self, it, op, other, reflected):
+        if self.kind == "values" or not isinstance(op, (ast.BitAnd, ast.BitOr, ast.Sub, ast.BitXor)):
+            return NotImplemented
+        mine = ASet(self.current())
+        theirs = ASet(it.iterate(other))
+        a, b = (theirs, mine) if reflected else (mine, theirs)
+        return it.binop(op, a, b)
+
+    def compare(self, it, op, other, reflected):
+        if isinstance(op, (ast.Eq, ast.NotEq)):
+            if self.kind != "values" and isinstance(other, (ASet, ADictView)):
+                o = other.current() if isinstance(other, ADictView) else list(other.items)
+                eq = len(o) == len(self.d.items) and all(any(it.equal(x, y) for y in self.current()) for x in o)
+            else:
+                eq = other is self
+            return eq if isinstance(op, ast.Eq) else not eq
+        return NotImplemented
 
 
 # ----------------------------------------------------------------------------- control flow signals
@@ -766,6 +881,10 @@ class Interp:
                 return ExtModule(mod)
             if attr is not None and (f"{mod}.{attr}" in STDLIB_FUNCS or f"{mod}.{attr}" in _stdlib().FUNCS):
                 return BuiltinFn(f"{mod}.{attr}")
+            if mod == "re" and attr is not None and attr.isupper():
+                import re as _re
+                if isinstance(getattr(_re, attr, None), int):
+                    return int(getattr(_re, attr))
         if name in ("str", "int", "bool", "list", "dict", "set", "tuple", "float", "type", "object", "frozenset"):
             return BuiltinType(name)
         if name in ("Collection", "Iterable", "Sequence", "Mapping"):
@@ -832,6 +951,8 @@ class Interp:
         return d
 
     def hashable(self, k):
+        if isinstance(k, (AList, ADict, ASet)):
+            self.raise_builtin("TypeError", f"unhashable type: '{type_of(self, k)!r}'")
         try:
             hash(k)
             return k
@@ -1137,6 +1258,8 @@ class Interp:
                     if self.equal(k, item, src):
                         return True
                 return False
+            if isinstance(item, (AList, ADict, ASet)):
+                self.raise_builtin("TypeError", f"unhashable type: '{type_of(self, item)!r}'")
             try:
                 return item in container.items
             except TypeError:
@@ -1200,7 +1323,13 @@ class Interp:
                 return AFunc(m, m.node, m.module, self_val=v, cls=m.cls)
             for c in v.cls.mro:
                 if name in c.class_attrs or (c.qualname, name) in self._clsattrs:
-                    return self.class_attr(c, name)
+                    cv = self.class_attr(c, name)
+                    if isinstance(cv, PropertyObj):
+                        # a property object stored in the class body (built by a factory function): the descriptor protocol applies
+                        if cv.fget is None:
+                            self.raise_builtin("AttributeError", f"unreadable attribute {name}", node=node)
+                        return self.call_value(cv.fget, [v], {})
+                    return cv
             ext = v.cls.all_ext_bases()
             if any(x.split(".")[-1] not in ("ABC", "object") for x in ext):
                 return BoundBuiltin(v, name)
@@ -1324,6 +1453,8 @@ class Interp:
                 return v.items[k]
             return Unknown("index")
         if isinstance(v, ADict):
+            if isinstance(idx, (AList, ADict, ASet)):
+                self.raise_builtin("TypeError", f"unhashable type: '{type_of(self, idx)!r}'", node=node)
             if isinstance(idx, Unknown):
                 for k, val in v.items.items():
                     if self.equal(k, idx):
@@ -1538,6 +1669,12 @@ class Interp:
             for mem in enum_members(self, cls):
                 if mem is args[0] or (not isinstance(args[0], AbsVal) and mem.value == args[0] and type(mem.value) is type(args[0])):
                     return mem
+            if enum_is_flag(cls) and isinstance(args[0], int) and not isinstance(args[0], bool):
+                allbits = 0
+                for mem in enum_members(self, cls):
+                    allbits |= mem.value if isinstance(mem.value, int) else 0
+                if args[0] >= 0 and args[0] & ~allbits == 0:
+                    return flag_member(self, cls, args[0])
             self.raise_builtin("ValueError", f"{args[0]!r} is not a valid {cls.name}", node=node)
         obj = AObj(cls)
         if cls.is_dataclass or self.is_namedtuple(cls):
@@ -1768,6 +1905,16 @@ class Interp:
             m = base.cls.find_method(name)
             if m is not None and m.is_property:
                 self.raise_builtin("AttributeError", f"property '{name}' of '{base.cls.name}' object has no setter", node=node)
+            if m is None:
+                for c in base.cls.mro:
+                    if name in c.class_attrs or (c.qualname, name) in self._clsattrs:
+                        cv = self.class_attr(c, name)
+                        if isinstance(cv, PropertyObj):
+                            if cv.fset is None:
+                                self.raise_builtin("AttributeError", f"property '{name}' of '{base.cls.name}' object has no setter", node=node)
+                            self.call_value(cv.fset, [base, v], {})
+                            return
+                        break
             base.attrs[name] = v
             self.effect("store-attr", base, name, v)
             return
@@ -1847,10 +1994,50 @@ class Interp:
         raise Ret(self.ev(s.value) if s.value is not None else None)
 
     def st_Import(self, s):
-        pass
+        # a function-local import binds a local name
+        if self.frame.fname in ("<module>", "<module-init>"):
+            return
+        for a in s.names:
+            top = a.name.split(".")[0]
+            if a.asname:
+                self.frame.env[a.asname] = ExtModule(a.name) if a.name in _stdlib().MODULES else self._package_module(a.name) or Unknown(f"module:{a.name}")
+            else:
+                self.frame.env[top] = ExtModule(top) if top in _stdlib().MODULES else self._package_module(top) or Unknown(f"module:{top}")
+
+    def _package_module(self, dotted):
+        return None     # modules of the analysed package are reached through the module-level import table
 
     def st_ImportFrom(self, s):
-        pass
+        if self.frame.fname in ("<module>", "<module-init>"):
+            return
+        mod = s.module or ""
+        for a in s.names:
+            name = a.asname or a.name
+            full = f"{mod}.{a.name}"
+            if full in STDLIB_FUNCS or full in _stdlib().FUNCS:
+                self.frame.env[name] = BuiltinFn(full)
+                continue
+            if s.level == 0 and mod.split(".")[0] != PKG_NAME:
+                self.frame.env[name] = Unknown(f"name:{a.name}")
+                continue
+            # an import from the analysed package: resolve it like a module-level import of the current module would
+            try:
+                base = self.P._resolve_from(self.frame.module, s)
+                tgt = self.P.modules.get(base)
+                r = None
+                if tgt is not None:
+                    r = tgt.functions.get(a.name) or tgt.classes.get(a.name)
+                    if r is None and a.name in tgt.assigns:
+                        self.frame.env[name] = self.global_name(tgt, a.name)
+                        continue
+                if isinstance(r, FuncInfo):
+                    self.frame.env[name] = AFunc(r, r.node, r.module)
+                elif isinstance(r, ClassInfo):
+                    self.frame.env[name] = AClass(r)
+                else:
+                    self.frame.env[name] = Unknown(f"name:{a.name}")
+            except Exception:  # noqa: BLE001
+                self.frame.env[name] = Unknown(f"name:{a.name}")
 
     def st_Global(self, s):
         raise Unsupported("global statement")
@@ -1863,7 +2050,17 @@ class Interp:
 
     def st_Delete(self, s):
         for t in s.targets:
-            if isinstance(t, ast.Subscript):
+            if isinstance(t, ast.Subscript) and isinstance(t.slice, ast.Slice):
+                base = self.ev(t.value)
+                lo = self.ev(t.slice.lower) if t.slice.lower is not None else None
+                hi = self.ev(t.slice.upper) if t.slice.upper is not None else None
+                st = self.ev(t.slice.step) if t.slice.step is not None else None
+                if isinstance(base, AList) and all(x is None or (isinstance(x, int) and not isinstance(x, bool)) for x in (lo, hi, st)):
+                    del base.items[lo:hi:st]
+                    self.effect("del-item", base, (lo, hi, st))
+                else:
+                    raise Unsupported("del of an abstract slice")
+            elif isinstance(t, ast.Subscript):
                 base = self.ev(t.value)
                 idx = self.ev(t.slice)
                 if isinstance(base, ADict):
@@ -2029,6 +2226,22 @@ class Interp:
             while v.pos < len(v.seq):
                 v.pos += 1
                 yield v.seq[v.pos - 1]
+        elif isinstance(v, AList) and v.tag != "genexp":
+            # a list is iterated live, by index: removing or inserting items in the loop body shifts what comes next
+            i = 0
+            while i < len(v.items):
+                yield v.items[i]
+                i += 1
+                if i > 100000:
+                    raise LoopBound(label)
+        elif isinstance(v, (ADict, ASet)):
+            n0 = len(v.items)
+            for x in list(v.items.keys() if isinstance(v, ADict) else v.items):
+                if len(v.items) != n0:
+                    self.raise_builtin("RuntimeError", f"{'dictionary' if isinstance(v, ADict) else 'Set'} changed size during iteration")
+                yield x
+            if len(v.items) != n0:
+                self.raise_builtin("RuntimeError", f"{'dictionary' if isinstance(v, ADict) else 'Set'} changed size during iteration")
         else:
             for x in self.iterate(v, label):
                 yield x
@@ -2140,14 +2353,22 @@ class Interp:
             return True
         raise Unsupported(f"pattern {type(p).__name__}")
 
+    MAX_CONCRETE_LOOP = 20000
+
     def st_While(self, s):
-        n = 0
+        n = nc = 0
         while True:
+            i0 = self.ctx.i
             if not self.truth(self.ev(s.test), _src(s.test)):
                 self.run(s.orelse)
                 return
-            n += 1
-            if n > self.MAX_LOOP:
+            # iterations whose test was decided by the decision tape (an abstract condition) are bounded tightly; a test that is
+            # concrete every time is an ordinary loop over concrete data
+            if self.ctx.i != i0:
+                n += 1
+            else:
+                nc += 1
+            if n > self.MAX_LOOP or nc > max(self.MAX_CONCRETE_LOOP, self.MAX_LOOP):
                 raise LoopBound(_src(s.test))
             try:
                 self.run(s.body)
@@ -2649,7 +2870,10 @@ def call_builtin_type(it: Interp, name, args, kwargs, node=None):
             return ""
         v = args[0]
         if isinstance(v, (str, int, float, bool, type(None))):
-            return str(v)
+            try:
+                return str(v)
+            except ValueError as e:          # an int beyond CPython's limit for conversion to decimal text
+                it.raise_builtin("ValueError", str(e), node=node)
         if isinstance(v, ExcVal):
             if len(v.args) == 1 and isinstance(v.args[0], str) and v.name != "KeyError":
                 return v.args[0]
@@ -2774,7 +2998,7 @@ def call_builtin_method(it: Interp, recv, name, args, kwargs, node=None):
                 if all(_is_concrete(a) for a in args) and all(_is_concrete(a) for a in kwargs.values()):
                     try:
                         return recv.format(*args, **kwargs)
-                    except (KeyError, IndexError, ValueError) as e:
+                    except (KeyError, IndexError, ValueError, AttributeError, TypeError) as e:
                         it.raise_builtin(type(e).__name__, str(e), node=node)
                 if it.hooks is not None and hasattr(it.hooks, "format"):
                     r = it.hooks.format(it, recv, args, kwargs)
@@ -2889,6 +3113,8 @@ def call_builtin_method(it: Interp, recv, name, args, kwargs, node=None):
         D = recv.items
 
         def find(k):
+            if isinstance(k, (AList, ADict, ASet)):
+                it.raise_builtin("TypeError", f"unhashable type: '{type_of(it, k)!r}'", node=node)
             if isinstance(k, Unknown):
                 for kk in D:
                     if it.equal(kk, k):
@@ -2910,12 +3136,8 @@ def call_builtin_method(it: Interp, recv, name, args, kwargs, node=None):
             if len(args) > 1:
                 return args[1]
             it.raise_builtin("KeyError", args[0], node=node)
-        if name == "keys":
-            return AList(list(D.keys()))
-        if name == "values":
-            return AList(list(D.values()))
-        if name == "items":
-            return AList([(k, v) for k, v in D.items()])
+        if name in ("keys", "values", "items") and not args:
+            return ADictView(recv, name)
         if name == "copy":
             return ADict(dict(D))
         if name == "update":
@@ -2975,6 +3197,8 @@ def call_builtin_method(it: Interp, recv, name, args, kwargs, node=None):
     if isinstance(recv, ASet):
         S = recv.items
         if name == "add":
+            if isinstance(args[0], (AList, ADict, ASet)):
+                it.raise_builtin("TypeError", "unhashable type", node=node)
             if not any(it.equal(x, args[0]) for x in S):
                 S.append(args[0])
             it.effect("set-add", recv, args[0])
